@@ -285,3 +285,10 @@ Definition count_adds (log : list snap) : nat :=
   length (filter (fun sn => match sn_kind sn with KAdd _ _ => true | _ => false end) log).
 Definition count_deletes (log : list snap) : nat :=
   length (filter (fun sn => match sn_kind sn with KDelete _ => true | _ => false end) log).
+
+(* a whole run under either dynamics *)
+Definition ad_run (cf : adcfg) (procs : list (list adevent)) (nloci : nat)
+           (nodes : list Z) (edges : list (Z * Z)) (init : list (Z * Z)) (maxtime : Q) (adraws : list nat)
+           (sync : bool) (pf fuel : nat) (rs ls : list Q) (ds : list nat) : result adworld :=
+  let tb := ad_table cf procs nloci nodes edges init maxtime adraws in
+  if sync then sync_run tb pf fuel rs ds else stoch_run tb pf fuel rs ls ds.
